@@ -4,16 +4,9 @@ non-blocking socket) and the field extraction done by the `_handle_*` functions 
 The socket is a queue of `RecvItem`s, as the fake transport of the harness presents it.
 -/
 import Paho.Model.Props
+import Paho.Model.Transport
 import Paho.Gen.ReaderLimits
 namespace Paho
-
-/-- what successive `recv()` calls will find -/
-inductive RecvItem where
-  | data (b : Bytes)      -- bytes available now (a TCP segment / what the kernel buffered)
-  | eagain                -- would block once
-  | eof                   -- orderly shutdown by the peer (sticky)
-  | err                   -- OSError (sticky)
-  deriving DecidableEq, Repr
 
 /-- `_in_packet` -/
 structure RState where
@@ -25,20 +18,6 @@ structure RState where
   packet : Bytes := []
   toProcess : Nat := 0
   deriving DecidableEq, Repr
-
-inductive RecvRes where
-  | bytes (b : Bytes) | block | closed | error
-  deriving DecidableEq, Repr
-
-/-- `sock.recv(n)` on the fake transport (n ≥ 1) -/
-def recvN (n : Nat) : List RecvItem → RecvRes × List RecvItem
-  | [] => (.block, [])
-  | .eagain :: rest => (.block, rest)
-  | .eof :: rest => (.closed, .eof :: rest)
-  | .err :: rest => (.error, .err :: rest)
-  | .data b :: rest =>
-    if b.length ≤ n then (.bytes b, rest)      -- (an empty chunk is never queued by the harness)
-    else (.bytes (b.take n), .data (b.drop n) :: rest)
 
 /-- outcome of one `_packet_read()` call -/
 inductive ReadOut where
